@@ -37,6 +37,8 @@ def run(prog, chk):
     class_loops_run_to_the_end(prog, chk)
     unfiltered_output(prog, chk)
     unconditional_emissions(prog, chk)
+    from props import C02
+    C02.other_is_whole_input_event(prog, chk)  # every element tag of the output is a Start / Empty event: the class scan of the style pass sees all of them
     from props import strops
     strops.check_for(prog, chk, "C20")  # A14.str-ops: how this property's strings are cut up is a reviewed, frozen inventory
 
